@@ -39,7 +39,10 @@ var c18IDs = []uint64{0, 1, 2, 255, 256, 1 << 32, 1 << 63, ^uint64(0)}
 func c18Addrs() [][]byte {
 	var out [][]byte
 	fill := func(n int, b byte) []byte { return bytes.Repeat([]byte{b}, n) }
-	for _, n := range []int{1, 2, 19, 20, 21, 32, 254, 255} {
+	// boundary lengths, the common 20 and 32, and every length whose length byte equals a store prefix byte in
+	// use in the four modules (0x01..0x07, 0x11, 0x20, 0x98, 0x99) with its neighbours: a parser or
+	// iterator that confuses a prefix byte with a length byte shows at exactly those lengths
+	for _, n := range []int{1, 2, 3, 4, 5, 6, 7, 8, 16, 17, 18, 19, 20, 21, 32, 152, 153, 254, 255} {
 		out = append(out, fill(n, 0x00), fill(n, 0xff))
 		a := make([]byte, n)
 		for i := range a {
@@ -240,7 +243,7 @@ func c18Extra(t Tier, ev *Evidence) []Violation {
 	ev.Coverage["distinct_nontrivial"] = len(ks)
 	ev.Coverage["outcomes"] = hist
 	ev.Coverage["exhaustive"] = true
-	ev.Coverage["rule"] = fmt.Sprintf("all pairs of logical keys within each module over ids/heights %v and addresses of lengths 1,2,19,20,21,32,254,255 with contents all-0x00, all-0xff, a pattern A, A||0x00 and length-prefix look-alikes: both keys built first, then compared (injective, no shared backing array, no capture by another entity's iteration prefix, big-endian order = numeric order); stream key parsers inverted for every (receiver,sender) length pair; keeper set/get/delete/iterate round trips on a scratch context for the same values; distinct = logical keys", c18IDs)
+	ev.Coverage["rule"] = fmt.Sprintf("all pairs of logical keys within each module over ids/heights %v and addresses of lengths 1,2,3,4,5,6,7,8,16,17,18,19,20,21,32,152,153,254,255 (boundaries, 20 and 32, and every length whose length byte equals a store prefix byte in use) with contents all-0x00, all-0xff, a pattern A, A||0x00 and length-prefix look-alikes: both keys built first, then compared (injective, no shared backing array, no capture by another entity's iteration prefix, big-endian order = numeric order); stream key parsers inverted for every (receiver,sender) length pair; keeper set/get/delete/iterate round trips on a scratch context for the same values; distinct = logical keys", c18IDs)
 	ev.Coverage["samples"] = []any{map[string]string{"a": ks[0].section + "(" + ks[0].args + ")", "b": ks[len(ks)-1].section + "(" + ks[len(ks)-1].args + ")"}}
 	return viols
 }
